@@ -1,38 +1,41 @@
-/* C09 on the block processor: sqfs_block_processor_sync() with the real
- * dequeue_block() / process_completed_block() / store_io_block() underneath,
- * the pool and the block writer replaced by their contracts (bp_env.h).
- * Arbitrary state within the block processor's accounting invariant
+/* C09 on the block processor: dequeue_block() (lib/sqfs/src/block_processor/
+ * backend.c) - the only place where the main thread takes blocks back from
+ * the pool - with the real process_completed_block() / store_io_block()
+ * underneath, the pool and the block writer replaced by their contracts
+ * (bp_env.h). Arbitrary state within the block processor's accounting
+ * invariant
  *   backlog = blocks inside the pool + (frag_block != NULL) + (blk_current != NULL)
- * with an empty io_queue; a worker may fail at any point.
+ * with an empty io_queue; a worker may fail at any moment.
  *
  *   C09.bp.error_surfaces    when dequeue() yields NULL the call fails with
  *                            the pool status (SQFS_ERROR_INTERNAL if that is
  *                            0) - never success
- *   C09.bp.failure_reported  a worker failure is never swallowed: if sync()
- *                            returns 0 every block has left the pool and the
- *                            pool status is 0
- *   C09.bp.drains            return 0 => pool empty, every block written
- *                            exactly once in submission order, backlog
- *                            accounts for the remaining current/fragment block
+ *   C09.bp.failure_reported  a worker failure is never swallowed: if the call
+ *                            returns 0, no block was taken back from the pool
+ *                            while the pool status was non-zero. (sync() and
+ *                            finish() return the first non-zero result of this
+ *                            function and 0 only when every block has been
+ *                            taken back, so this is the inductive step of
+ *                            "finish() == 0 => no worker failed".)
+ *   C09.bp.in_order          blocks are written in the order the pool hands
+ *                            them back (io sequence numbers seq0, seq0+1, ..)
  *   C09.bp.pool_pre / writer_pre   call-site preconditions of the contracts
  */
 #include <stdlib.h>
 #include <string.h>
 #include "bp_env.h"
 #include "lib/sqfs/src/block_processor/backend.c"
-#include "lib/sqfs/src/block_processor/block_processor.c"
 
 static sqfs_block_processor_t g_proc;
 
 void harness(void)
 {
 	sqfs_block_processor_t *proc = &g_proc;
-	size_t n = verif_nd_size("inpool"), i;
+	size_t n = NPOOL, i;
 	bool has_cur = verif_nd_bool("has_cur"), has_frag = verif_nd_bool("has_frag");
 	sqfs_u32 seq0 = verif_nd_u32("io_seq_num");
 	int ret;
 
-	VERIF_ASSUME(n <= NB);
 	VERIF_ASSUME(seq0 < 0xFFFFFF00u);
 	c09_bp_block(BLK(0), FL0);
 	c09_bp_block(BLK(1), FL1);
@@ -42,8 +45,6 @@ void harness(void)
 	c09_bp_block(&g_frag, SQFS_BLK_FRAGMENT_BLOCK);
 	g_inpool = n;
 	g_pstatus = verif_nd_int("pool_status");
-	/* a pool that has already failed holds at least the failed item's
-	 * successors or has handed everything back; both are allowed */
 
 	g_tp.dequeue = stub_dequeue;
 	g_tp.get_status = stub_get_status;
@@ -72,29 +73,26 @@ void harness(void)
 		     proc->stats.data_block_count < (1ULL << 60) &&
 		     proc->stats.sparse_block_count < (1ULL << 60));
 
-	ret = sqfs_block_processor_sync(proc);
+	ret = dequeue_block(proc);
 
 	if (g_null_returned)
 		VERIF_ASSERT(ret != 0 &&
 			     ret == (g_pstatus != 0 ? g_pstatus : SQFS_ERROR_INTERNAL),
 			     "C09.bp.error_surfaces");
-	if (ret == 0) {
-		VERIF_ASSERT(g_pstatus == 0 && !g_handed_while_failed,
-			     "C09.bp.failure_reported");
-		VERIF_ASSERT(g_inpool == 0 && g_writes == n && !g_write_failed,
-			     "C09.bp.drains");
-		VERIF_ASSERT(proc->backlog == (size_t)(has_cur ? 1 : 0) + (has_frag ? 1 : 0) &&
-			     proc->io_queue == NULL &&
-			     proc->io_deq_seq_num == proc->io_seq_num,
-			     "C09.bp.drains");
-		for (i = 0; i < 4; ++i) {
-			if (i < n)
-				VERIF_ASSERT(g_write_seq[i] == seq0 + i, "C09.bp.drains");
-		}
+	if (ret == 0)
+		VERIF_ASSERT(!g_handed_while_failed, "C09.bp.failure_reported");
+	for (i = 0; i < 4; ++i) {
+		if (i < g_writes)
+			VERIF_ASSERT(g_write_seq[i] == seq0 + i, "C09.bp.in_order");
 	}
-	VERIF_COVER(ret == 0 && n == NB);
-	VERIF_COVER(ret == 0 && n == 0);
-	VERIF_COVER(ret != 0 && g_null_returned && g_pstatus != 0);
+	VERIF_ASSERT(g_writes <= g_next, "C09.bp.in_order");
+
+#if GIVEUP_AT >= 0 || NPOOL == 0
+	VERIF_COVER(ret != 0 && g_null_returned);
+#else
+	VERIF_COVER(ret == 0 && g_writes == 1);
 	VERIF_COVER(ret != 0 && g_write_failed);
 	VERIF_COVER(g_handed_while_failed);
+#endif
+	VERIF_COVER(has_cur && has_frag);
 }
